@@ -5,7 +5,7 @@
    Close's compaction;
    client.GetLatestStatus; the daemon's Start guard; the socket as absent / stale / live).
    The model follows /repo after the repairs b9e9fa2 (F8a), 3aa388e (F7a), 7f2c2d0 (F8b/F8c), ac08004 (F5c), eb925d1 (F7b: compaction
-   by tmp + rename, readers drop an original next to its twin) and a924e5c (F16a: flock on the DAG file during start-up).
+   by tmp + rename, readers drop an original next to its twin) and a924e5c (F16a, with fc081bb: flock on <socket address>.lock during start-up).
    Every theorem quantifies over all table sizes n, socket pre-states s0 and label sequences ls; `exec ... ls = Some st`
    for an arbitrary ls means: st is the state at an arbitrary kill point of an arbitrary interleaving.
    Tie to the code: tools/props/C08.py (in-process agent runs: persisted lines and live answers against Status/Check.v;
@@ -112,7 +112,7 @@ Example C08_kill_inside_compaction :
   reports_final_after_kill [LCompactRead; LCompactCreate; LCompactWrite; LCompactRename; LCompactUnlink].
 Proof. exact kill_inside_compaction. Qed.
 
-(* After a kill anywhere the flock on the DAG file is free, a new agent's probe says "not running" and its bind (after the unlink)
+(* After a kill anywhere the flock on the start lock file is free, a new agent's probe says "not running" and its bind (after the unlink)
    succeeds; the unlink is what makes it so; the flock is held during start-up only. *)
 Theorem C08_restartable : forall n s0 ls st,
   exec (init n s0) ls = Some st ->
